@@ -148,3 +148,27 @@ ADDED = {
 for _p, _t in ADDED.items():
     if _p in CLAIMS:
         CLAIMS[_p]["text"] += " " + _t
+
+ADDED2 = {
+ "C01": "Rounds 4-5: cast names matched in any case; =, != and =~ accepted implies !~; clause order judged over all occurrences of a field in the printer.",
+ "C02": "Rounds 4-5: float fill values excluded only by the bare ok; printed durations re-read (imports C08 units/overflow/digits/ladder); a group keyword is not left bare when its by-value members are zero.",
+ "C03": "Rounds 4-5: an operand-printing helper prints the whole operand; no second precedence comparison decides an insertion; the operator's level is not kept in parser state; parse entry points read no mutable package state; every operand position holds a single operand.",
+ "C04": "Rounds 4-5: an index guarded by the length of the text a rune slice was converted from; no recursion on a negated parameter; i+k range facts.",
+ "C05": "Rounds 4-5: the reader is not moved after a delimited scan; a position taken after the body was consumed; delegated positions; the ring gets the rune read; strings end at the first unescaped quote; end marker not a character; comment skippers end at end of input; RuneScanner face fails only at the end; a quote after bare text ends the identifier; every ParseError has a position.",
+ "C06": "Rounds 4-5: helpers pure and argument-preserving; reader/RuneScanner faithful; strings end at the first unescaped quote.",
+ "C07": "Rounds 4-5: Value() renders floats with (-1, 64) and integers in base 10; parseRegex yields a regex only for REGEX and passes other parameters over; the placeholder name is its text minus one `$`; no numeric kind change in the final conversion.",
+ "C08": "Rounds 4-5: Round is not a divisibility test; a digit-count limit admits 19 digits; rune positions not advanced by byte lengths; duration literal nodes not interned.",
+ "C09": "Rounds 4-5: short-cuts return the reduced operand; asLiteral holds the bound value unconverted; Reduce reads no mutable package state; float-mode zero divisor; a float factor is not truncated before scaling a duration.",
+ "C10": "Rounds 4-5: every successful return of the AND/OR arm carries the intersection; exact time operations only; zone-aware parsing of every literal form; first non-nil zone.",
+ "C11": "Rounds 4-5: no class member narrowed to a byte; connective not captured from outside the callback; pattern parsed with syntax.Perl.",
+ "C12": "Rounds 4-5: subqueries rewritten before references are typed; no loop over sources left by break; tag-argument guard not stricter than the slice; single-entry map idiom through callers.",
+ "C14": "Rounds 4-5: nested whole-struct copies re-assign every pointer-like field.",
+ "C15": "Rounds 4-5: strings end at the first unescaped quote; one output buffer per pass; backward splicing accepted; keywords matched inside quoted tokens (known finding).",
+ "C16": "Rounds 4-5: counted separators; comment openers unconditional; the raw one-rune look-ahead is made only at push-back depth 0 (context-sensitive push-back analysis).",
+ "C18": "Rounds 4-5: a paren-stripping helper strips every level; only comparisons with time are stripped.",
+ "C19": "Rounds 4-5: the Admin flag is not a predicate over the statement's fields.",
+ "C20": "Rounds 4-5: one Field per created column; created columns only without INTO (decided by evaluation with the target present).",
+}
+for _p, _t in ADDED2.items():
+    if _p in CLAIMS:
+        CLAIMS[_p]["text"] += " " + _t
